@@ -67,6 +67,7 @@ pub enum Splitter {
     Hyphen,
     Every2,
     Every3,
+    Half,
 }
 #[derive(Clone, Copy, PartialEq, Eq, Debug)]
 pub struct Pen {
@@ -117,14 +118,70 @@ pub struct Opts {
     pub crlf: bool,
 }
 
+/// for every character of `s`: is the escape scanner in plain-text state *before* it (own scanner, as in `strip_own`)
+pub fn outside_seq(s: &str) -> Vec<bool> {
+    let cs: Vec<char> = s.chars().collect();
+    let mut out = vec![false; cs.len()];
+    let mut i = 0;
+    while i < cs.len() {
+        out[i] = true;
+        if cs[i] != '\x1b' {
+            i += 1;
+            continue;
+        }
+        i += 1;
+        if i >= cs.len() {
+            break;
+        }
+        let c = cs[i];
+        i += 1;
+        if c == '[' {
+            while i < cs.len() {
+                let d = cs[i];
+                i += 1;
+                if ('\x40'..='\x7e').contains(&d) {
+                    break;
+                }
+            }
+        } else if c == ']' {
+            let mut last = ']';
+            while i < cs.len() {
+                let d = cs[i];
+                i += 1;
+                if d == '\x07' || (d == '\\' && last == '\x1b') {
+                    break;
+                }
+                last = d;
+            }
+        }
+    }
+    out
+}
+
 pub fn every_k(word: &str, k: usize) -> Vec<usize> {
-    // a split point after every k-th character, but never directly after a space
+    // a split point after every k-th character, but never directly after a space and never inside an escape sequence
+    // (directly before the ESC of a sequence is allowed)
     let n = word.len();
+    let outside = outside_seq(word);
     word.char_indices()
         .enumerate()
-        .filter(|(cnt, (idx, _))| *cnt > 0 && cnt % k == 0 && *idx > 0 && *idx < n && !word[..*idx].ends_with(' '))
+        .filter(|(cnt, (idx, _))| *cnt > 0 && cnt % k == 0 && *idx > 0 && *idx < n && !word[..*idx].ends_with(' ') && outside[*cnt])
         .map(|(_, (idx, _))| idx)
         .collect()
+}
+/// the documentation's example `|w| vec![w.len() / 2]`, in characters (0 for a one-character word)
+fn half(word: &str) -> Vec<usize> {
+    let n = word.chars().count();
+    if n == 0 {
+        return vec![];
+    }
+    let q = n / 2;
+    let idx = word.char_indices().nth(q).map(|(i, _)| i).unwrap_or(0);
+    if outside_seq(word)[q] && !(q > 0 && word[..idx].ends_with(' ')) {
+        vec![idx]
+    } else {
+        vec![]
+    }
 }
 fn every2(word: &str) -> Vec<usize> {
     every_k(word, 2)
@@ -140,6 +197,7 @@ impl Splitter {
             Splitter::Hyphen => WordSplitter::HyphenSplitter,
             Splitter::Every2 => WordSplitter::Custom(every2),
             Splitter::Every3 => WordSplitter::Custom(every3),
+            Splitter::Half => WordSplitter::Custom(half),
         }
     }
     pub fn name(self) -> &'static str {
@@ -148,6 +206,7 @@ impl Splitter {
             Splitter::Hyphen => "hyphen",
             Splitter::Every2 => "every2",
             Splitter::Every3 => "every3",
+            Splitter::Half => "half",
         }
     }
 }
